@@ -509,3 +509,23 @@ class WitnessArray:
             if self.rel(j, k):
                 return k
         return -1
+
+
+# ---- joining a list of strings ------------------------------------------------------------------------------
+def join_list(sep, arr, n):
+    """sep.join(list) for a symbolic list given as (array, length); concretely a python list"""
+    if z3 is not None and (is_sym(arr) or is_sym(n)):
+        F = z3.Function('JoinList', z3.StringSort(), z3.ArraySort(z3.IntSort(), z3.StringSort()), z3.IntSort(), z3.StringSort())
+        sepz = sep if is_sym(sep) else z3.StringVal(to_z3_str(sep))
+        return F(sepz, arr, n if is_sym(n) else z3.IntVal(n))
+    return sep.join(arr[:n])
+
+
+def list_join(sep, lst):
+    """spec-level: sep.join(lst) for a list view (symbolic or concrete)"""
+    if hasattr(lst, '_heap'):
+        h = lst._heap[lst._oid]
+        if h.kind == 'symlist':
+            return join_list(sep, h.fields['comps'][0][0], h.fields['len'].t)
+        return cat(*([''] + [x for i, it in enumerate(lst.items_spec()) for x in ([sep] if i else []) + [it]]))
+    return sep.join(lst.items)
